@@ -116,6 +116,11 @@ theorem inv2b_step (n : Nat) (s s' : Sys) (hreach : Reachable n s) (h : Inv2b n 
   | advanceCommit i k Q => exact hframe _ (by rfl) (by intro l t idx iterm hm; exact hm)
   | compact i b' => exact hframe _ (by rfl) (by intro l t idx iterm hm; exact hm)
   | takeSnap i k => exact hframe _ (by rfl) (by intro l t idx iterm hm; exact hm)
+  | fsmApply i =>
+    rcases fsmApply_cases n s i with heq | ⟨e, _, heq⟩
+    · rw [heq]; exact ⟨b⟩
+    · rw [heq]; exact hframe _ (by rfl) (by intro l t idx iterm hm; exact hm)
+  | fsmRestore i => exact hframe _ (by rfl) (by intro l t idx iterm hm; exact hm)
   | sendIS i =>
     simp only [enabled] at hen
     obtain ⟨hi, hrole, hs1, hs2⟩ := hen
